@@ -20,7 +20,7 @@ func NewGen(seed int64) *Gen {
 	return &Gen{
 		R:      rand.New(rand.NewSource(seed)),
 		Owners: []string{"o1", "o2"},
-		Provs:  []string{"p1", "p2", "p3"},
+		Provs:  []string{"p1", "p2", "p3", "pz"},
 		Cons:   []string{"c1", "c2"},
 		All:    PoolNames,
 		Svcs:   []string{"s1", "s2", "s", "s-1"},
@@ -167,6 +167,8 @@ func (g *Gen) bind(st *State) Ev {
 	owner, prov := g.pick(g.Owners), g.pick(g.Provs)
 	if g.chance(0.12) {
 		owner = prov // a provider that is its own owner
+	} else if g.chance(0.06) {
+		prov = g.pick(g.Owners) // an owner's own account used as a provider (possibly of the other owner)
 	}
 	return Ev{Name: "Bind", Signer: owner, Svc: svc, Prov: prov, Deposit: dep, DShape: "ok",
 		Pr: pr, Qos: g.in(1, 1, 2, 3, st.Params.MaxTimeout, st.Params.MaxTimeout+1)}
